@@ -1,6 +1,7 @@
 package rules
 
 import (
+	"go/token"
 	"fqverif/fw"
 
 	"golang.org/x/tools/go/ssa"
@@ -142,4 +143,130 @@ func c01Buffer(r *fw.Run, p *fw.Program) {
 		}
 		ru.Check(retOK, "ReadBits:returns", p.Rel(fn.Pos()), "returns the copied count", "ReadBits does not return the count it copied")
 	}
+}
+
+// C01.eofbits: bits that arrive together with an error are still delivered
+//
+// A bitio.Reader may return n > 0 bits together with io.EOF (IOBitReadSeeker does whenever a request crosses
+// the end). IOReader.Read (the byte view every io.Reader consumer - decompressors, hashes, CopyBits - reads
+// through) must buffer the bits it got before looking at the error: the WriteBits of the returned count into
+// its buffer is not control dependent on the error of that read.
+func c01EOFBits(r *fw.Run, p *fw.Program) {
+	ru := r.Rule("C01.eofbits", "IOReader.Read buffers the bits returned by the wrapped reader's ReadBits unconditionally: the (*Buffer).WriteBits(p, n) of the returned count is reached on every path from the read, not only when its error is nil (bits delivered together with io.EOF are part of the stream); the error is remembered (sticky) in the same place", 3)
+	fn := getFn(ru, p, "(*pkg/bitio.IOReader).Read")
+	if fn == nil {
+		return
+	}
+	var reads []*ssa.Call
+	for _, c := range fw.CallsIn(fn) {
+		cc := c.Common()
+		if cc.IsInvoke() && cc.Method.Name() == "ReadBits" {
+			if call, ok := c.(*ssa.Call); ok {
+				reads = append(reads, call)
+			}
+		}
+	}
+	if len(reads) != 1 {
+		ru.Undecided("Read:source-read", p.Rel(fn.Pos()), "expected exactly one ReadBits call on the wrapped reader")
+		return
+	}
+	rd := reads[0]
+	rn, rerr := extractOf(rd, 0), extractOf(rd, 1)
+	if rn == nil || rerr == nil {
+		ru.Fail("Read:results", p.Rel(rd.Pos()), "count or error of the wrapped ReadBits is not used")
+		return
+	}
+	ru.Ok("Read:results", p.Rel(rd.Pos()), "count and error used")
+	var wr ssa.CallInstruction
+	for _, c := range fw.CallsIn(fn) {
+		cal := c.Common().StaticCallee()
+		if cal != nil && cal.String() == "(*"+fw.Mod+"/pkg/bitio.Buffer).WriteBits" && len(c.Common().Args) == 3 && c.Common().Args[2] == rn {
+			wr = c
+		}
+	}
+	if wr == nil {
+		ru.Fail("Read:buffered", p.Rel(rd.Pos()), "the bits returned by the wrapped reader are not written to the buffer with their count")
+		return
+	}
+	// no guard between the read and the write depends on the read's error
+	dep := ""
+	for _, g := range fw.Guards(wr.Block()) {
+		if g.If == nil || !rd.Block().Dominates(g.If.Block()) {
+			continue
+		}
+		srcs := map[ssa.Value]bool{}
+		valueSources(g.Cond, srcs, 0)
+		if srcs[rerr] {
+			dep = p.Rel(g.Cond.Pos())
+		}
+		// err spilled to the named result: a load of the cell the error was stored to
+		for s := range srcs {
+			if al, ok := s.(*ssa.Alloc); ok && al.Referrers() != nil {
+				for _, rf := range *al.Referrers() {
+					if st, ok := rf.(*ssa.Store); ok && st.Val == rerr {
+						dep = p.Rel(g.Cond.Pos())
+					}
+				}
+			}
+		}
+	}
+	ru.Check(dep == "", "Read:buffered", p.Rel(wr.Pos()), "buffered before the error is looked at", "the bits returned by the wrapped reader are only buffered when its error is nil (test at "+dep+"): bits delivered together with io.EOF are dropped from the byte stream")
+	// sticky error: stored into r.rErr on every path from the read
+	sticky := false
+	fw.EachInstr(fn, func(ins ssa.Instruction) {
+		if st, ok := ins.(*ssa.Store); ok && st.Val == rerr {
+			if fa, ok := st.Addr.(*ssa.FieldAddr); ok && fieldNameOf(fa.X.Type(), fa.Field) == "rErr" {
+				okG := true
+				for _, g := range fw.Guards(st.Block()) {
+					if g.If == nil || !rd.Block().Dominates(g.If.Block()) || g.If.Block() == rd.Block() && false {
+						continue
+					}
+					if g.If.Block() != rd.Block() && !rd.Block().Dominates(g.If.Block()) {
+						continue
+					}
+					// guards established after the read: only "this error is non-nil" may stand in front of remembering it
+					if instrIndexIn(g.If.Block(), g.If) < 0 {
+						continue
+					}
+					if bo, ok := g.Cond.(*ssa.BinOp); ok && bo.Op == token.NEQ && g.True && (c01IsVal(bo.X, rerr) || c01IsVal(bo.Y, rerr)) {
+						continue
+					}
+					if g.If.Block() == rd.Block() || rd.Block().Dominates(g.If.Block()) && g.If.Block() != rd.Block() {
+						// a guard evaluated after the read (same block counts: the If ends the block of the read)
+						okG = false
+					}
+				}
+				if okG {
+					sticky = true
+				}
+			}
+		}
+	})
+	ru.Check(sticky, "Read:sticky", p.Rel(rd.Pos()), "error remembered", "the wrapped reader's error is not remembered unconditionally (the source would be read again after EOF)")
+}
+
+func instrIndexIn(b *ssa.BasicBlock, ins ssa.Instruction) int {
+	for i, x := range b.Instrs {
+		if x == ins {
+			return i
+		}
+	}
+	return -1
+}
+
+// c01IsVal: v is val, or a load of a local cell that val was stored into.
+func c01IsVal(v, val ssa.Value) bool {
+	if v == val {
+		return true
+	}
+	if u, ok := v.(*ssa.UnOp); ok && u.Op == token.MUL {
+		if al, ok := u.X.(*ssa.Alloc); ok && al.Referrers() != nil {
+			for _, rf := range *al.Referrers() {
+				if st, ok := rf.(*ssa.Store); ok && st.Val == val {
+					return true
+				}
+			}
+		}
+	}
+	return false
 }
